@@ -914,6 +914,49 @@ func checkOneFrame(w *World, r *Report, pfx string) {
 			r.Check(bad == "" && n > 0, rule, "render closure", w.pos(rc.Pos()), fmt.Sprintf("%d paths, one frame each", n), bad)
 		}
 	}
+	// the renderer of an exited bar: when the bar's goroutine is gone (ready channel closed) the
+	// render request is served by calling the same closure on the published state - still one frame
+	if rc != nil {
+		for _, fn := range w.ModFns {
+			for _, off := range w.offersIn(fn) {
+				if off.Closure != rc || off.Fn != fn {
+					continue
+				}
+				bad := ""
+				nOther := 0
+				w.enumPaths(fn, off.opts(w), func(p *Path) {
+					k := p.armTaken(off.Sel)
+					if k < 0 || k == off.State || p.Exit != "return" {
+						return
+					}
+					nOther++
+					calls := 0
+					for _, ev := range p.Events {
+						c, ok := ev.In.(*ssa.Call)
+						if !ok {
+							continue
+						}
+						direct := c.Call.StaticCallee() == rc
+						if !direct && c.Call.StaticCallee() == nil && !c.Call.IsInvoke() {
+							if mc, ok := p.stripR(p.val(ev, c.Call.Value)).V.(*ssa.MakeClosure); ok && boundTarget(mc.Fn.(*ssa.Function)) == rc {
+								direct = true
+							}
+						}
+						if direct {
+							calls++
+							if len(c.Call.Args) == 0 || !isLoad(Val{V: stripConv(p.val(ev, c.Call.Args[len(c.Call.Args)-1]).V)}, tBar, "bs") {
+								bad = "the exited bar is rendered from something other than its published state"
+							}
+						}
+					}
+					if calls != 1 {
+						bad = fmt.Sprintf("on the arm taken after the bar's goroutine has exited the render closure is run %d times (must be once): flush waits forever for the frame of a finished bar that is still displayed", calls)
+					}
+				})
+				r.Check(bad == "" && nOther > 0, rule, "render of an exited bar", w.pos(fn.Pos()), "closure run once on the published state", orStr(bad, "no arm for the exited bar"))
+			}
+		}
+	}
 	// flush: loop body receives exactly one frame
 	fl := w.flushFn()
 	if fl != nil {
